@@ -136,7 +136,7 @@ fn run_scan<A: App>(app: &mut A, ts: u8, hp: u8, npolls: usize, pop0: &str, scri
     }
     let script = parse_script(script);
     let mut prev_bits: Option<u128> = None;
-    let mut buf = [0u8; 256];
+    let mut buf = [0xA5u8; 256];
     for i in 0..npolls {
         let now = Instant::from_micros(1000 * i as i64);
         let mut lost = false;
@@ -202,7 +202,7 @@ fn run_scan<A: App>(app: &mut A, ts: u8, hp: u8, npolls: usize, pop0: &str, scri
 
 fn run_raw<A: App>(app: &mut A, ts: u8, ops: &str, out: &mut String) {
     let fdl = FdlActiveStation::new(ParametersBuilder::new(ts, profirust::Baudrate::B500000).build());
-    let mut buf = [0u8; 256];
+    let mut buf = [0xA5u8; 256];
     let now = Instant::from_micros(0);
     let mut first = true;
     for op in ops.split(',') {
